@@ -22,6 +22,9 @@
 //!         | 'Y' view* ')'                    [AnyView; N], N = 1..3
 //!         | 'W' view                         OwnedView::new(view) (reactive_graph/owned.rs)
 //!         | 'F' view                         the closure `move || view` (reactive_graph/mod.rs, RenderEffect)
+//!         | 'X' fid ';' view                 Suspend::new(async { rx_fid.await; view }) (reactive_graph/suspense.rs); fid = 0..15,
+//!                                            a oneshot channel the harness completes; `view` holds no Suspend; only in `shyd`/`sfrag`
+//!         | 'Q' (fid '.' hex ';')* ']'       keyed(keys) with item view `<b>{Suspend::new(async { rx_fid.await; key })}</b>`
 //!   attr := 'A' hex ';' hex ';'              .attr(name, String)
 //!         | 'B' hex ';' ('0'|'1')            .attr(name, bool)
 //!         | 'O' hex ';' ('-' | 's' hex ';')  .attr(name, Option<String>)
@@ -35,6 +38,16 @@
 //!   mis <views A> <views C>    A hydrated against the DOM of C's SSR string (error paths of the walk)
 //!   frag <tag> <pre> <itemsA> <itemsB> <post>   (`-` = none) `<tag>` with children `pre…, Fragment(itemsA),
 //!                              post…` (`Fragment` = `StaticVec<AnyView>`), hydrated, rebuilt with itemsB; twin
+//!   shyd <mode> <done0> <steps> <views A> <views B>
+//!                              `hyd` for views with `Suspend`s.  The server renders A in the form <mode>: `io` =
+//!                              to_html_stream_in_order, `ooo` = to_html_stream_out_of_order (then the inline scripts are
+//!                              applied as the browser does), `res` = resolve().await.to_html(), `sync` = to_html().
+//!                              <done0> (`-` or fids): futures completed before rendering; <steps> (`-` or `/`-separated
+//!                              fid lists, `-` = none): futures completed before the 1st, 2nd, … poll of the stream / of the
+//!                              resolve future; then all the others at once; then polls to the end.  The client hydrates A
+//!                              with every future ready, rebuilds with B (spawned tasks run to idle); twin as in `hyd`.
+//!                              Output: raw=<hex of the concatenated chunks> html=<hex of the final document> + as `hyd`.
+//!   sfrag <mode> <done0> <steps> <tag> <pre> <itemsA> <itemsB> <post>   `frag` with items that may suspend
 //!
 //! Output of `hyd`:
 //!   html=<hex> io=<0|1> ooo=<0|1> tree=<enc> hyd=<outcome> created=<n> after=<enc> csr=<enc> ## <verdict>
@@ -519,42 +532,42 @@ fn elem_any(tag: &str, attrs: Vec<AnyAttribute>, kids: Vec<AnyView>) -> Option<A
         [area, base, br, col, embed, hr, img, input, link, meta, source, track, wbr])
 }
 
-fn any(v: &V) -> Option<AnyView> {
+fn any_e(v: &V, env: &Option<Env>) -> Option<AnyView> {
     Some(match v {
         V::Text(s) => s.clone().into_any(),
         V::Unit => ().into_any(),
         V::Elem { tag, attrs, kids } => {
             let attrs: Vec<AnyAttribute> = attrs.iter().map(build_attr).collect();
-            let kids: Vec<AnyView> = kids.iter().map(any).collect::<Option<_>>()?;
+            let kids: Vec<AnyView> = kids.iter().map(|k| any_e(k, env)).collect::<Option<_>>()?;
             elem_any(tag.as_str(), attrs, kids)?
         }
         V::Tuple(ks) => {
-            let ks: Vec<AnyView> = ks.iter().map(any).collect::<Option<_>>()?;
+            let ks: Vec<AnyView> = ks.iter().map(|k| any_e(k, env)).collect::<Option<_>>()?;
             tuple_of!(ks)
         }
         V::None => Option::<AnyView>::None.into_any(),
-        V::Some(x) => Some(any(x)?).into_any(),
-        V::Left(x) => Either::<AnyView, AnyView>::Left(any(x)?).into_any(),
-        V::Right(x) => Either::<AnyView, AnyView>::Right(any(x)?).into_any(),
-        V::Vec(ks) => ks.iter().map(any).collect::<Option<Vec<AnyView>>>()?.into_any(),
+        V::Some(x) => Some(any_e(x, env)?).into_any(),
+        V::Left(x) => Either::<AnyView, AnyView>::Left(any_e(x, env)?).into_any(),
+        V::Right(x) => Either::<AnyView, AnyView>::Right(any_e(x, env)?).into_any(),
+        V::Vec(ks) => ks.iter().map(|k| any_e(k, env)).collect::<Option<Vec<AnyView>>>()?.into_any(),
         V::Inert(x) => {
             if !inert_ok(x, true) {
                 return Option::None;
             }
             // what the view! macro does at compile time: the static subtree as an HTML string
-            let html_s = any(x)?.to_html();
+            let html_s = any_e(x, env)?.to_html();
             InertElement::new(html_s).into_any()
         }
         V::Keyed(keys) => keyed(keys.clone(), |k: &String| k.clone(), |_, k: String| (|_: usize| (), el::b().child(k)))
             .into_any(),
         V::KeyedText(keys) => keyed(keys.clone(), |k: &String| k.clone(), |_, k: String| (|_: usize| (), k)).into_any(),
-        V::Ok(x) => Result::<AnyView, std::fmt::Error>::Ok(any(x)?).into_any(),
+        V::Ok(x) => Result::<AnyView, std::fmt::Error>::Ok(any_e(x, env)?).into_any(),
         V::Err => Result::<AnyView, std::fmt::Error>::Err(std::fmt::Error).into_any(),
         V::Num(n) => (*n).into_any(),
         V::ArcStr(s) => std::sync::Arc::<str>::from(s.as_str()).into_any(),
         V::CowStr(s) => std::borrow::Cow::<'static, str>::Owned(s.clone()).into_any(),
         V::Of3(i, x) => {
-            let x = any(x)?;
+            let x = any_e(x, env)?;
             match i {
                 0 => EitherOf3::<AnyView, AnyView, AnyView>::A(x),
                 1 => EitherOf3::B(x),
@@ -563,20 +576,82 @@ fn any(v: &V) -> Option<AnyView> {
             .into_any()
         }
         V::Array(ks) => {
-            let mut k = ks.iter().map(any).collect::<Option<Vec<AnyView>>>()?.into_iter();
+            let mut k = ks.iter().map(|k| any_e(k, env)).collect::<Option<Vec<AnyView>>>()?.into_iter();
             match k.len() {
                 1 => [k.next().unwrap()].into_any(),
                 2 => [k.next().unwrap(), k.next().unwrap()].into_any(),
                 _ => [k.next().unwrap(), k.next().unwrap(), k.next().unwrap()].into_any(),
             }
         }
-        V::Owned(x) => OwnedView::new(any(x)?).into_any(),
+        V::Owned(x) => OwnedView::new(any_e(x, env)?).into_any(),
         V::Closure(x) => {
             let x = (**x).clone();
-            (move || any(&x).expect("closure view")).into_any()
+            let env = env.clone();
+            (move || any_e(&x, &env).expect("closure view")).into_any()
+        }
+        V::Susp(f, x) => {
+            // the inner view must be buildable (checked now: the future must not fail later)
+            any_e(x, env)?;
+            let x = (**x).clone();
+            match env {
+                Some(e) => {
+                    let rx = e.rx(*f);
+                    let env = env.clone();
+                    Suspend::new(async move {
+                        let _ = rx.await;
+                        any_e(&x, &env).expect("suspended view")
+                    })
+                    .into_any()
+                }
+                Option::None => Suspend::new(async move { any_e(&x, &Option::None).expect("suspended view") }).into_any(),
+            }
+        }
+        V::KeyedSusp(items) => {
+            let env = env.clone();
+            keyed(
+                items.clone(),
+                |it: &(usize, String)| it.1.clone(),
+                move |_, (f, k): (usize, String)| {
+                    let rx = env.as_ref().map(|e| e.rx(f));
+                    (
+                        |_: usize| (),
+                        el::b().child(Suspend::new(async move {
+                            if let Some(rx) = rx {
+                                let _ = rx.await;
+                            }
+                            k
+                        })),
+                    )
+                },
+            )
+            .into_any()
         }
     })
 }
+
+fn any(v: &V) -> Option<AnyView> {
+    any_e(v, &Option::None)
+}
+
+fn has_susp(v: &V) -> bool {
+    match v {
+        V::Susp(..) | V::KeyedSusp(_) => true,
+        V::Elem { kids, .. } | V::Tuple(kids) | V::Vec(kids) | V::Array(kids) => kids.iter().any(has_susp),
+        V::Some(x) | V::Left(x) | V::Right(x) | V::Ok(x) | V::Of3(_, x) | V::Owned(x) | V::Closure(x) | V::Inert(x) => has_susp(x),
+        _ => false,
+    }
+}
+
+fn fids_of(v: &V, out: &mut Vec<usize>) {
+    match v {
+        V::Susp(f, _) => out.push(*f),
+        V::KeyedSusp(items) => out.extend(items.iter().map(|(f, _)| *f)),
+        V::Elem { kids, .. } | V::Tuple(kids) | V::Vec(kids) | V::Array(kids) => kids.iter().for_each(|k| fids_of(k, out)),
+        V::Some(x) | V::Left(x) | V::Right(x) | V::Ok(x) | V::Of3(_, x) | V::Owned(x) | V::Closure(x) => fids_of(x, out),
+        _ => {}
+    }
+}
+
 
 /// the shape `view!` turns into an `InertElement`: an element with static string attributes whose
 /// children are such elements or single non-empty strings, no two strings adjacent
@@ -594,6 +669,40 @@ fn inert_ok(v: &V, top: bool) -> bool {
 
 fn top(vs: &[V]) -> Option<AnyView> {
     any(&V::Tuple(vs.to_vec()))
+}
+
+fn top_e(vs: &[V], env: &Option<Env>) -> Option<AnyView> {
+    any_e(&V::Tuple(vs.to_vec()), env)
+}
+
+// ------------------------------------------------------------------ futures under harness control (as in hx-c07)
+
+type Rx = Shared<oneshot::Receiver<()>>;
+
+#[derive(Default)]
+struct EnvInner {
+    chans: Mutex<HashMap<usize, (Option<oneshot::Sender<()>>, Rx)>>,
+}
+#[derive(Clone, Default)]
+struct Env(Arc<EnvInner>);
+impl Env {
+    fn rx(&self, k: usize) -> Rx {
+        let mut m = self.0.chans.lock().unwrap();
+        m.entry(k)
+            .or_insert_with(|| {
+                let (tx, rx) = oneshot::channel();
+                (Some(tx), rx.shared())
+            })
+            .1
+            .clone()
+    }
+    fn send(&self, k: usize) {
+        let _ = self.rx(k);
+        let tx = self.0.chans.lock().unwrap().get_mut(&k).and_then(|e| e.0.take());
+        if let Some(tx) = tx {
+            let _ = tx.send(());
+        }
+    }
 }
 
 // ------------------------------------------------------------------------------------- DOM <-> Tree
@@ -745,8 +854,13 @@ fn op_hyd(a: &[V], b: &[V]) -> String {
         .map(|s| s == html_s)
         .unwrap_or(false);
     let head = format!("html={} io={} ooo={}", if html_s.is_empty() { "-".into() } else { hx(&html_s) }, io as u8, ooo as u8);
-    // (2) the browser's reading of it
-    let Some(tree) = html::parse(&html_s) else {
+    hydrate_tail(&head, &html_s, va4, va5, vb, vb2, false)
+}
+
+/// (2) the browser's reading of `html_s`, (3) real hydration with `va4`, (4) rebuild with `vb`, and the client-built
+/// twin (`va5` built, mounted, rebuilt with `vb2`).  `settle`: run the spawned tasks (a `Suspend` rebuilds in a task)
+fn hydrate_tail(head: &str, html_s: &str, va4: AnyView, va5: AnyView, vb: AnyView, vb2: AnyView, settle: bool) -> String {
+    let Some(tree) = html::parse(html_s) else {
         return format!("{head} tree=none ## fail parse-none");
     };
     nd::reset();
@@ -762,13 +876,21 @@ fn op_hyd(a: &[V], b: &[V]) -> String {
         return format!("{head} tree={} hyd={outcome} created={created} ## fail hydration-error", enc_trees(&tree));
     };
     // (4) rebuild, and the client-built twin
-    let r1 = catch_unwind(AssertUnwindSafe(|| vb.rebuild(&mut st)));
+    let r1 = catch_unwind(AssertUnwindSafe(|| {
+        vb.rebuild(&mut st);
+        if settle {
+            sched::run_until_idle(100_000);
+        }
+    }));
     let after = dump_kids(&root);
     let root2 = nd::create_root("div");
     let r2 = catch_unwind(AssertUnwindSafe(|| {
         let mut st2 = va5.build();
         st2.mount(&root2, Option::None);
         vb2.rebuild(&mut st2);
+        if settle {
+            sched::run_until_idle(100_000);
+        }
         st2
     }));
     let csr = dump_kids(&root2);
@@ -792,10 +914,172 @@ fn op_hyd(a: &[V], b: &[V]) -> String {
     )
 }
 
+/// the client side of out-of-order streaming (Rust twin of `Leptos.Stream.applyScripts`, as in hx-c07)
+fn apply_scripts(stream: &str) -> String {
+    let mut dom = String::new();
+    let mut tpls: Vec<(String, String)> = vec![];
+    let mut input = stream;
+    loop {
+        let Some(p) = input.find("<template id=\"") else { break };
+        let rest = &input[p + 14..];
+        let Some(q) = rest.find("\">") else { break };
+        let tid = &rest[..q];
+        let rest2 = &rest[q + 2..];
+        let Some(r) = rest2.find("</template>") else { break };
+        let content = &rest2[..r];
+        let rest3 = &rest2[r + 11..];
+        let Some(s) = rest3.find("</script>") else { break };
+        let script = &rest3[..s];
+        dom.push_str(&input[..p]);
+        tpls.push((tid.to_string(), content.to_string()));
+        input = &rest3[s + 9..];
+        let Some(a) = script.find("let id = \"") else { continue };
+        let after = &script[a + 10..];
+        let Some(b) = after.find('"') else { continue };
+        let id = &after[..b];
+        let replace = script.contains("range.deleteContents()");
+        let open = format!("<!--s-{id}o-->");
+        let close = format!("<!--s-{id}c-->");
+        let (Some(po), Some(pc)) = (dom.rfind(&open), dom.rfind(&close)) else { continue };
+        if replace {
+            let want = format!("{id}f");
+            let Some((_, tpl)) = tpls.iter().find(|(k, _)| *k == want) else { continue };
+            let start = if pc < po { pc } else { po };
+            dom = format!("{}{}{}", &dom[..start], tpl, &dom[pc + close.len()..]);
+        } else {
+            let mut d = format!("{}{}", &dom[..pc], &dom[pc + close.len()..]);
+            if let Some(po2) = d.rfind(&open) {
+                d = format!("{}{}", &d[..po2], &d[po2 + open.len()..]);
+            }
+            dom = d;
+        }
+    }
+    dom.push_str(input);
+    dom
+}
+
+fn parse_fids(s: &str) -> Option<Vec<usize>> {
+    if s == "-" {
+        return Some(vec![]);
+    }
+    s.split(',').map(|x| x.parse::<usize>().ok().filter(|k| *k <= 15)).collect()
+}
+
+/// `shyd <mode> <done0> <steps> <views A> <views B>`: the server renders A, whose `Suspend`s wait for the futures
+/// the harness completes: `done0` before rendering, then per poll the futures of one step (`/`-separated), then all
+/// the others, then polls until the end.  mode = `io` (`to_html_stream_in_order`), `ooo` (`…_out_of_order`, the inline
+/// scripts applied), `res` (`resolve().await.to_html()`), `sync` (`to_html()`, every future in `done0`).
+/// The client hydrates A with every future ready.
+fn op_shyd(mode: &str, d0: &[usize], steps: &[Vec<usize>], a: &[V], b: &[V]) -> String {
+    sched::reset();
+    let env = Env::default();
+    let mut fids = vec![];
+    a.iter().for_each(|v| fids_of(v, &mut fids));
+    if mode == "sync" && !fids.iter().all(|f| d0.contains(f)) {
+        return "bad-op".into();
+    }
+    let (Some(server), Some(va4), Some(va5)) = (top_e(a, &Some(env.clone())), top(a), top(a)) else {
+        return "bad-op".into();
+    };
+    let (Some(vb), Some(vb2)) = (top(b), top(b)) else { return "bad-op".into() };
+    match server_render(mode, d0, steps, &fids, server, &env) {
+        Err(e) => e,
+        Ok((raw, html_s)) => {
+            let hxd = |s: &str| if s.is_empty() { "-".to_string() } else { hx(s) };
+            let head = format!("raw={} html={}", hxd(&raw), hxd(&html_s));
+            hydrate_tail(&head, &html_s, va4, va5, vb, vb2, true)
+        }
+    }
+}
+
+/// the server side of `shyd` / `sfrag`: the concatenated chunks and what the browser holds afterwards
+fn server_render(
+    mode: &str,
+    d0: &[usize],
+    steps: &[Vec<usize>],
+    fids: &[usize],
+    server: AnyView,
+    env: &Env,
+) -> Result<(String, String), String> {
+    let mut sent: BTreeSet<usize> = BTreeSet::new();
+    for k in d0 {
+        sent.insert(*k);
+    }
+    let waker = sched::noop_waker();
+    // the futures of one step, then (after the last step) all the others
+    let mut plan: Vec<Vec<usize>> = steps.to_vec();
+    let rest: Vec<usize> = {
+        let mut r: Vec<usize> = fids.iter().copied().filter(|f| !sent.contains(f) && !steps.iter().any(|s| s.contains(f))).collect();
+        r.sort();
+        r.dedup();
+        r
+    };
+    plan.push(rest);
+    let raw: Result<Option<String>, ()> = catch_unwind(AssertUnwindSafe(|| {
+      for k in d0 {
+        env.send(*k);
+      }
+      match mode {
+        "sync" => Some(server.to_html()),
+        "io" | "ooo" => {
+            let mut stream: std::pin::Pin<Box<dyn Stream<Item = String>>> = if mode == "ooo" {
+                Box::pin(server.to_html_stream_out_of_order())
+            } else {
+                Box::pin(server.to_html_stream_in_order())
+            };
+            let mut cx = Context::from_waker(&waker);
+            let mut raw = String::new();
+            let mut finished = false;
+            let mut n = 0;
+            while !finished && n < plan.len() + 64 {
+                if let Some(newly) = plan.get(n) {
+                    newly.iter().for_each(|k| env.send(*k));
+                }
+                n += 1;
+                match stream.as_mut().poll_next(&mut cx) {
+                    Poll::Ready(Some(s)) => raw.push_str(&s),
+                    Poll::Ready(Option::None) => finished = true,
+                    Poll::Pending => {}
+                }
+            }
+            finished.then_some(raw)
+        }
+        _ => {
+            let mut fut = Box::pin(server.resolve());
+            let mut cx = Context::from_waker(&waker);
+            let mut n = 0;
+            let mut out = Option::None;
+            while out.is_none() && n < plan.len() + 64 {
+                if let Some(newly) = plan.get(n) {
+                    newly.iter().for_each(|k| env.send(*k));
+                }
+                n += 1;
+                if let Poll::Ready(v) = fut.as_mut().poll(&mut cx) {
+                    out = Some(v.to_html());
+                }
+            }
+            out
+        }
+      }
+    }))
+    .map_err(|_| ());
+    let raw = match raw {
+        Err(()) => return Err("ssr-panic ## fail ssr-panic".into()),
+        Ok(Option::None) => return Err("ssr-stuck ## fail ssr-stuck".into()),
+        Ok(Some(r)) => r,
+    };
+    let html_s = if mode == "ooo" { apply_scripts(&raw) } else { raw.clone() };
+    Ok((raw, html_s))
+}
+
 /// `<tag>` with children `pre…, Fragment(items), post…` (the `Fragment` is one `AnyView` child)
 fn frag_view(tag: &str, pre: &[V], items: &[V], post: &[V]) -> Option<AnyView> {
+    frag_view_e(tag, pre, items, post, &Option::None)
+}
+
+fn frag_view_e(tag: &str, pre: &[V], items: &[V], post: &[V], env: &Option<Env>) -> Option<AnyView> {
     let mut kids: Vec<AnyView> = pre.iter().map(any).collect::<Option<_>>()?;
-    let f = Fragment::new(items.iter().map(any).collect::<Option<Vec<AnyView>>>()?);
+    let f = Fragment::new(items.iter().map(|k| any_e(k, env)).collect::<Option<Vec<AnyView>>>()?);
     kids.push(AnyView::from(f));
     for v in post {
         kids.push(any(v)?);
@@ -812,7 +1096,37 @@ fn op_frag(tag: &str, pre: &[V], ia: &[V], ib: &[V], post: &[V]) -> String {
         return "ssr-panic ## fail ssr-panic".into();
     };
     let head = format!("html={}", if html_s.is_empty() { "-".into() } else { hx(&html_s) });
-    let Some(tree) = html::parse(&html_s) else {
+    frag_tail(&head, &html_s, va2, va3, vb, vb2)
+}
+
+/// `sfrag <mode> <done0> <steps> <tag> <pre> <itemsA> <itemsB> <post>`: `frag` with items that may suspend, in the
+/// server form `mode` (see `shyd`)
+#[allow(clippy::too_many_arguments)]
+fn op_sfrag(mode: &str, d0: &[usize], steps: &[Vec<usize>], tag: &str, pre: &[V], ia: &[V], ib: &[V], post: &[V]) -> String {
+    sched::reset();
+    let env = Env::default();
+    let mut fids = vec![];
+    ia.iter().for_each(|v| fids_of(v, &mut fids));
+    if mode == "sync" && !fids.iter().all(|f| d0.contains(f)) {
+        return "bad-op".into();
+    }
+    let mk = |items: &[V]| frag_view(tag, pre, items, post);
+    let (Some(server), Some(va2), Some(va3), Some(vb), Some(vb2)) =
+        (frag_view_e(tag, pre, ia, post, &Some(env.clone())), mk(ia), mk(ia), mk(ib), mk(ib))
+    else {
+        return "bad-op".into();
+    };
+    match server_render(mode, d0, steps, &fids, server, &env) {
+        Err(e) => e,
+        Ok((raw, html_s)) => {
+            let hxd = |s: &str| if s.is_empty() { "-".to_string() } else { hx(s) };
+            frag_tail(&format!("raw={} html={}", hxd(&raw), hxd(&html_s)), &html_s, va2, va3, vb, vb2)
+        }
+    }
+}
+
+fn frag_tail(head: &str, html_s: &str, va2: AnyView, va3: AnyView, vb: AnyView, vb2: AnyView) -> String {
+    let Some(tree) = html::parse(html_s) else {
         return format!("{head} tree=none ## fail parse-none");
     };
     nd::reset();
@@ -903,12 +1217,13 @@ fn op(line: &str, tags: &std::collections::HashMap<String, String>) -> String {
             _ => format!("case {n}"),
         },
         ["hyd", a, b] => match (decode(a), decode(b)) {
-            (Some(a), Some(b)) => op_hyd(&a, &b),
+            (Some(a), Some(b)) if !a.iter().chain(&b).any(has_susp) => op_hyd(&a, &b),
             _ => "bad-op".into(),
         },
         ["frag", tag, p, ia, ib, q] => match (decode_seq(p), decode_seq(ia), decode_seq(ib), decode_seq(q)) {
             (Some(p), Some(ia), Some(ib), Some(q))
                 if p.len() + ia.len() + q.len() <= 5
+                    && !p.iter().chain(&ia).chain(&ib).chain(&q).any(has_susp)
                     && !tag.is_empty()
                     && tag.bytes().all(|b| b.is_ascii_lowercase() || b.is_ascii_digit() || b == b'-') =>
             {
@@ -917,9 +1232,33 @@ fn op(line: &str, tags: &std::collections::HashMap<String, String>) -> String {
             _ => "bad-op".into(),
         },
         ["mis", a, c] => match (decode(a), decode(c)) {
-            (Some(a), Some(c)) => op_mis(&a, &c),
+            (Some(a), Some(c)) if !a.iter().chain(&c).any(has_susp) => op_mis(&a, &c),
             _ => "bad-op".into(),
         },
+        ["sfrag", mode @ ("io" | "ooo" | "res" | "sync"), d0, steps, tag, p, ia, ib, q] => {
+            let steps: Option<Vec<Vec<usize>>> =
+                if *steps == "-" { Some(vec![]) } else { steps.split('/').map(parse_fids).collect() };
+            match (parse_fids(d0), steps, decode_seq(p), decode_seq(ia), decode_seq(ib), decode_seq(q)) {
+                (Some(d0), Some(steps), Some(p), Some(ia), Some(ib), Some(q))
+                    if steps.len() <= 8
+                        && p.len() + ia.len() + q.len() <= 5
+                        && !p.iter().chain(&q).any(has_susp)
+                        && !tag.is_empty()
+                        && tag.bytes().all(|b| b.is_ascii_lowercase() || b.is_ascii_digit() || b == b'-') =>
+                {
+                    op_sfrag(mode, &d0, &steps, tag, &p, &ia, &ib, &q)
+                }
+                _ => "bad-op".into(),
+            }
+        }
+        ["shyd", mode @ ("io" | "ooo" | "res" | "sync"), d0, steps, a, b] => {
+            let steps: Option<Vec<Vec<usize>>> =
+                if *steps == "-" { Some(vec![]) } else { steps.split('/').map(parse_fids).collect() };
+            match (parse_fids(d0), steps, decode(a), decode(b)) {
+                (Some(d0), Some(steps), Some(a), Some(b)) if steps.len() <= 8 => op_shyd(mode, &d0, &steps, &a, &b),
+                _ => "bad-op".into(),
+            }
+        }
         _ => "bad-op".into(),
     }
 }
@@ -965,6 +1304,8 @@ fn seq_tags(ks: &[V], in_elem: bool, t: &mut BTreeSet<String>) {
                 | V::Of3(..)
                 | V::Closure(_)
                 | V::Owned(_)
+                | V::Susp(..)
+                | V::KeyedSusp(_)
         );
         if matches!(k, V::Inert(_)) {
             t.insert(
@@ -984,6 +1325,27 @@ fn seq_tags(ks: &[V], in_elem: bool, t: &mut BTreeSet<String>) {
             if i > 0 && matches!(ks[i - 1], V::Text(_)) && i + 1 < ks.len() && matches!(ks[i + 1], V::Text(_)) {
                 t.insert("marker-between-texts".into());
             }
+        }
+        if let V::Susp(..) = k {
+            t.insert(
+                match i.checked_sub(1).map(|j| &ks[j]) {
+                    Option::None => "susp-first",
+                    Some(V::Text(_)) => "susp-after-text",
+                    Some(V::Elem { .. }) => "susp-after-elem",
+                    Some(_) => "susp-after-other",
+                }
+                .into(),
+            );
+            t.insert(
+                match ks.get(i + 1) {
+                    Option::None => "susp-last",
+                    Some(V::Text(_)) => "susp-then-text",
+                    Some(V::Elem { .. }) => "susp-then-elem",
+                    Some(_) => "susp-then-other",
+                }
+                .into(),
+            );
+            t.insert(if in_elem { "susp-in-elem" } else { "susp-in-seq" }.into());
         }
         if dynamic && i + 1 < ks.len() {
             t.insert(if in_elem { "kids-after-dyn" } else { "sib-after-dyn" }.into());
@@ -1017,6 +1379,9 @@ fn v_tags(v: &V, t: &mut BTreeSet<String>) {
             seq_tags(kids, true, t);
         }
         V::Tuple(ks) => {
+            if ks.iter().any(|k| matches!(k, V::Susp(..))) {
+                t.insert("susp-in-tuple".into());
+            }
             t.insert("nested-tuple".into());
             seq_tags(ks, false, t);
         }
@@ -1032,6 +1397,9 @@ fn v_tags(v: &V, t: &mut BTreeSet<String>) {
             v_tags(x, t);
         }
         V::Vec(ks) => {
+            if ks.iter().any(|k| matches!(k, V::Susp(..))) {
+                t.insert("susp-in-vec".into());
+            }
             t.insert(if ks.is_empty() { "vec-empty" } else { "vec" }.into());
             // items of a Vec are siblings too
             seq_tags(ks, false, t);
@@ -1060,6 +1428,9 @@ fn v_tags(v: &V, t: &mut BTreeSet<String>) {
             v_tags(x, t);
         }
         V::Array(ks) => {
+            if ks.iter().any(|k| matches!(k, V::Susp(..))) {
+                t.insert("susp-in-array".into());
+            }
             t.insert("array".into());
             seq_tags(ks, false, t);
         }
@@ -1070,6 +1441,13 @@ fn v_tags(v: &V, t: &mut BTreeSet<String>) {
         V::Closure(x) => {
             t.insert("closure".into());
             v_tags(x, t);
+        }
+        V::Susp(_, x) => {
+            t.insert("suspend".into());
+            v_tags(x, t);
+        }
+        V::KeyedSusp(_) => {
+            t.insert("keyed-suspend-items".into());
         }
     }
 }
@@ -1107,6 +1485,15 @@ fn diff_tags(a: &V, b: &V, t: &mut BTreeSet<String>) {
         (V::Ok(x), V::Ok(y)) | (V::Owned(x), V::Owned(y)) => diff_tags(x, y, t),
         (V::Closure(_), V::Closure(_)) => {
             t.insert("closure-rebuild".into());
+        }
+        (V::Susp(_, x), V::Susp(_, y)) => {
+            t.insert("suspend-rebuild".into());
+            diff_tags(x, y, t)
+        }
+        (V::KeyedSusp(x), V::KeyedSusp(y)) => {
+            if x.iter().map(|i| &i.1).ne(y.iter().map(|i| &i.1)) {
+                t.insert("keyed-change".into());
+            }
         }
         (V::Num(x), V::Num(y)) => {
             if x != y {
@@ -1174,7 +1561,62 @@ fn tags_of_op(w: &[&str]) -> String {
         ["mis", ..] => {
             t.insert("mismatch".into());
         }
-        ["frag", _, p, ia, ib, q] => {
+        ["shyd", mode, d0, steps, a, b] => {
+            if let (Some(a), Some(b), Some(d0)) = (decode(a), decode(b), parse_fids(d0)) {
+                seq_tags(&a, false, &mut t);
+                t.remove("nested-tuple");
+                if a.len() == b.len() {
+                    a.iter().zip(&b).for_each(|(x, y)| diff_tags(x, y, &mut t));
+                }
+                t.insert(
+                    match *mode {
+                        "io" => "stream-in-order",
+                        "ooo" => "stream-out-of-order",
+                        "res" => "resolved",
+                        _ => "sync-ready",
+                    }
+                    .into(),
+                );
+                let mut fids = vec![];
+                a.iter().for_each(|v| fids_of(v, &mut fids));
+                let pending: Vec<usize> = fids.iter().copied().filter(|f| !d0.contains(f)).collect();
+                if pending.len() < fids.len() {
+                    t.insert("susp-ready".into());
+                }
+                if !pending.is_empty() {
+                    t.insert("susp-pending".into());
+                }
+                // completion order against document order
+                let order: Vec<usize> = if *steps == "-" {
+                    vec![]
+                } else {
+                    steps.split('/').filter_map(parse_fids).flatten().filter(|f| pending.contains(f)).collect()
+                };
+                let doc_rank = |f: &usize| fids.iter().position(|g| g == f).unwrap_or(0);
+                if order.windows(2).any(|w| doc_rank(&w[0]) > doc_rank(&w[1])) {
+                    t.insert("completion-order-reversed".into());
+                } else if order.len() > 1 {
+                    t.insert("completion-in-doc-order".into());
+                }
+                if pending.len() > 1 {
+                    t.insert("several-pending".into());
+                }
+            }
+        }
+        ["frag", _, p, ia, ib, q] | ["sfrag", _, _, _, _, p, ia, ib, q] => {
+            if let ["sfrag", mode, d0, ..] = w {
+                t.insert("fragment-suspend-items".into());
+                t.insert(
+                    match *mode {
+                        "io" => "stream-in-order",
+                        "ooo" => "stream-out-of-order",
+                        "res" => "resolved",
+                        _ => "sync-ready",
+                    }
+                    .into(),
+                );
+                t.insert(if *d0 == "-" { "susp-pending" } else { "susp-ready" }.into());
+            }
             t.insert("fragment".into());
             if *p == "-" {
                 t.insert(if *ia == "-" { "frag-first-empty" } else { "frag-first" }.into());
@@ -1546,6 +1988,33 @@ fn mutate(r: &mut Rng, v: &V, depth: usize, anc: &mut Vec<&'static str>) -> V {
         V::Array(ks) => V::Array(ks.iter().map(|k| mutate(r, k, depth.saturating_sub(1), anc)).collect()),
         V::Owned(x) => V::Owned(Box::new(mutate(r, x, depth.saturating_sub(1), anc))),
         V::Closure(x) => V::Closure(Box::new(mutate(r, x, depth.saturating_sub(1), anc))),
+        V::Susp(f, x) => {
+            let y = mutate(r, x, depth.saturating_sub(1), anc);
+            V::Susp(*f, Box::new(if has_susp(&y) { (**x).clone() } else { y }))
+        }
+        V::KeyedSusp(items) => {
+            let mut out = items.clone();
+            match r.below(5) {
+                0 => out.clear(),
+                1 => out.reverse(),
+                2 => {
+                    if !out.is_empty() {
+                        let i = r.below(out.len());
+                        out.remove(i);
+                    }
+                }
+                3 => {
+                    for k in gen_keys(r, 1, 2) {
+                        if !out.iter().any(|(_, x)| *x == k) {
+                            let i = r.below(out.len() + 1);
+                            out.insert(i, (0, k));
+                        }
+                    }
+                }
+                _ => {}
+            }
+            V::KeyedSusp(out)
+        }
     }
 }
 
@@ -1668,9 +2137,378 @@ fn has_inert(v: &V) -> bool {
     match v {
         V::Inert(_) => true,
         V::Elem { kids, .. } | V::Tuple(kids) | V::Vec(kids) | V::Array(kids) => kids.iter().any(has_inert),
-        V::Some(x) | V::Left(x) | V::Right(x) | V::Ok(x) | V::Of3(_, x) | V::Owned(x) | V::Closure(x) => has_inert(x),
+        V::Some(x) | V::Left(x) | V::Right(x) | V::Ok(x) | V::Of3(_, x) | V::Owned(x) | V::Closure(x) | V::Susp(_, x) => has_inert(x),
         _ => false,
     }
+}
+
+/// Generate cases of the class `suspend-position` (F-C05-6: a `Suspend` still pending when the server renders what
+/// follows it leaves a guessed `Position`)?  Off until the proposed line of props/C05.known (class=suspend-position)
+/// is listed in known_findings.txt: every such case is a property failure that the model reproduces.  To switch on:
+/// set this to `true` and rename corpus/C05/F-C05-6-suspend-position.ops.pending to `.ops`.
+const SUSPEND_POSITION_CASES: bool = false;
+
+/// (`HX_C05_ALL=1 c05 gen …` generates the class regardless: used to test the model on it)
+fn position_cases() -> bool {
+    SUSPEND_POSITION_CASES || std::env::var_os("HX_C05_ALL").is_some()
+}
+
+#[derive(Clone, Copy, PartialEq, Debug)]
+enum Pos {
+    First,
+    Next,
+    AfterText,
+}
+
+/// the `Position` a view leaves (escaping context), as view/*.rs set it
+fn pos_after(v: &V, pos: Pos) -> Pos {
+    match v {
+        V::Text(_) | V::Num(_) | V::ArcStr(_) | V::CowStr(_) => Pos::AfterText,
+        V::Unit | V::None | V::Err | V::Elem { .. } | V::Inert(_) => Pos::Next,
+        V::Vec(_) | V::Keyed(_) | V::KeyedText(_) | V::KeyedSusp(_) => Pos::Next,
+        V::Tuple(ks) | V::Array(ks) => ks.iter().fold(pos, |p, k| pos_after(k, p)),
+        V::Some(x) | V::Left(x) | V::Right(x) | V::Ok(x) | V::Of3(_, x) | V::Owned(x) | V::Closure(x) | V::Susp(_, x) => {
+            pos_after(x, pos)
+        }
+    }
+}
+
+/// every pending `Suspend` of `v` leaves the position the server continues with (in-order: `NextChild`;
+/// out-of-order: the position it started from)
+fn guesses_right(v: &V, pos: Pos, ooo: bool, d0: &[usize]) -> bool {
+    match v {
+        V::Elem { kids, .. } => seq_guesses_right(kids, Pos::First, ooo, d0),
+        V::Tuple(ks) | V::Array(ks) | V::Vec(ks) => seq_guesses_right(ks, pos, ooo, d0),
+        V::Some(x) | V::Left(x) | V::Right(x) | V::Ok(x) | V::Of3(_, x) | V::Owned(x) | V::Closure(x) => {
+            guesses_right(x, pos, ooo, d0)
+        }
+        V::Susp(f, x) => d0.contains(f) || pos_after(x, pos) == if ooo { pos } else { Pos::Next },
+        _ => true,
+    }
+}
+
+fn seq_guesses_right(ks: &[V], mut pos: Pos, ooo: bool, d0: &[usize]) -> bool {
+    for k in ks {
+        if !guesses_right(k, pos, ooo, d0) {
+            return false;
+        }
+        pos = pos_after(k, pos);
+    }
+    true
+}
+
+fn in_position_class(mode: &str, d0: &[usize], a: &[V]) -> bool {
+    match mode {
+        "io" => !seq_guesses_right(a, Pos::First, false, d0),
+        "ooo" => !seq_guesses_right(a, Pos::First, true, d0),
+        _ => false,
+    }
+}
+
+fn fid_list(fs: &[usize]) -> String {
+    if fs.is_empty() {
+        "-".into()
+    } else {
+        fs.iter().map(|f| f.to_string()).collect::<Vec<_>>().join(",")
+    }
+}
+
+fn steps_str(steps: &[Vec<usize>]) -> String {
+    if steps.is_empty() {
+        "-".into()
+    } else {
+        steps.iter().map(|s| fid_list(s)).collect::<Vec<_>>().join("/")
+    }
+}
+
+fn write_shyd(
+    f: &mut impl std::io::Write,
+    name: &str,
+    mode: &str,
+    d0: &[usize],
+    steps: &[Vec<usize>],
+    a: &[V],
+    b: &[V],
+) -> std::io::Result<()> {
+    if !position_cases() && in_position_class(mode, d0, a) {
+        return Ok(());
+    }
+    writeln!(f, "case {name}\nshyd {mode} {} {} {} {}", fid_list(d0), steps_str(steps), encode(a), encode(b))
+}
+
+fn sx(f: usize, v: V) -> V {
+    V::Susp(f, Box::new(v))
+}
+
+/// forced coverage of `Suspend`: every container x sibling before x sibling after x shape of the resolved view x
+/// ready / pending x every server form; two `Suspend`s in every completion order; keyed items that suspend
+fn susp_scope(f: &mut impl std::io::Write) -> std::io::Result<()> {
+    let befores: Vec<(&str, Vec<V>)> = vec![("none", vec![]), ("text", vec![t("a")]), ("elem", vec![e("i", vec![t("i")])])];
+    let afters: Vec<(&str, Vec<V>)> = vec![("none", vec![]), ("text", vec![t("z")]), ("elem", vec![e("em", vec![])])];
+    let inners: Vec<(&str, V, V)> = vec![
+        ("text", t("s"), t("S")),
+        ("elem", e("b", vec![t("s")]), e("b", vec![t("S")])),
+        ("text-elem", V::Tuple(vec![t("s"), e("b", vec![])]), V::Tuple(vec![t("S"), e("b", vec![])])),
+        ("elem-text", V::Tuple(vec![e("b", vec![]), t("s")]), V::Tuple(vec![e("b", vec![]), t("S")])),
+        ("unit", V::Unit, V::Unit),
+        ("vec-text", V::Vec(vec![t("s")]), V::Vec(vec![t("S"), t("T")])),
+        ("empty-text", t(""), t("S")),
+    ];
+    type Wrap = fn(Vec<V>) -> Vec<V>;
+    let containers: Vec<(&str, Wrap)> = vec![
+        ("top", |s| s),
+        ("elem", |s| vec![e("div", s)]),
+        ("vec", |s| vec![V::Vec(s)]),
+        ("tuple", |s| vec![V::Tuple(s)]),
+        ("array", |s| vec![V::Array(s)]),
+        ("some", |s| vec![V::Some(Box::new(V::Tuple(s)))]),
+        ("either", |s| vec![V::Right(Box::new(V::Tuple(s)))]),
+        ("result", |s| vec![V::Ok(Box::new(V::Tuple(s)))]),
+        ("of3", |s| vec![V::Of3(1, Box::new(V::Tuple(s)))]),
+        ("owned", |s| vec![V::Owned(Box::new(V::Tuple(s)))]),
+        ("closure", |s| vec![V::Closure(Box::new(V::Tuple(s)))]),
+        ("vec-in-elem", |s| vec![e("section", vec![t("h"), V::Vec(s), t("f")])]),
+    ];
+    for (cn, wrap) in &containers {
+        for (bn, before) in &befores {
+            for (an, after) in &afters {
+                for (inn, ia, ib) in &inners {
+                    let mk = |inner: &V| {
+                        let mut s = before.clone();
+                        s.push(sx(0, inner.clone()));
+                        s.extend(after.iter().cloned());
+                        wrap(s)
+                    };
+                    let (a, b) = (mk(ia), mk(ib));
+                    for (mode, d0) in [("io", vec![]), ("ooo", vec![]), ("res", vec![]), ("io", vec![0]), ("ooo", vec![0]), ("sync", vec![0])] {
+                        let st = if d0.is_empty() { "pending" } else { "ready" };
+                        write_shyd(f, &format!("ss-susp-{cn}-{bn}-{inn}-{an}-{mode}-{st}"), mode, &d0, &[], &a, &b)?;
+                    }
+                }
+            }
+        }
+    }
+    // two Suspends, every completion order
+    let pairs: Vec<(&str, V, V)> = vec![
+        ("tt", t("p"), t("q")),
+        ("ee", e("b", vec![t("p")]), e("i", vec![t("q")])),
+        ("te", t("p"), e("i", vec![t("q")])),
+        ("et", e("b", vec![t("p")]), t("q")),
+    ];
+    let orders: Vec<(&str, Vec<usize>, Vec<Vec<usize>>)> = vec![
+        ("01", vec![], vec![vec![0], vec![1]]),
+        ("10", vec![], vec![vec![1], vec![0]]),
+        ("both", vec![], vec![vec![0, 1]]),
+        ("late", vec![], vec![vec![], vec![], vec![1], vec![], vec![0]]),
+        ("rest", vec![], vec![]),
+        ("0ready", vec![0], vec![vec![1]]),
+        ("1ready", vec![1], vec![vec![0]]),
+    ];
+    for (cn, wrap) in containers.iter().filter(|c| ["top", "elem", "vec", "array", "vec-in-elem"].contains(&c.0)) {
+        for (pn, x, y) in &pairs {
+            for mid in [false, true] {
+                let mut s = vec![sx(0, x.clone())];
+                if mid {
+                    s.push(e("hr", vec![]));
+                }
+                s.push(sx(1, y.clone()));
+                let a = wrap(s);
+                for (on, d0, steps) in &orders {
+                    for mode in ["io", "ooo", "res"] {
+                        write_shyd(f, &format!("ss-susp2-{cn}-{pn}-{}-{on}-{mode}", mid as u8), mode, d0, steps, &a, &a)?;
+                    }
+                }
+            }
+        }
+    }
+    // keyed items that suspend: every completion order, in every server form
+    let items = |ks: &[(usize, &str)]| V::KeyedSusp(ks.iter().map(|(f, k)| (*f, k.to_string())).collect());
+    let perms: [[usize; 3]; 6] = [[0, 1, 2], [0, 2, 1], [1, 0, 2], [1, 2, 0], [2, 0, 1], [2, 1, 0]];
+    for (sn, pre, post) in [("alone", vec![], vec![]), ("between", vec![t("a")], vec![t("z")]), ("in-elem", vec![], vec![])] {
+        let mk = |k: V| {
+            let mut s = pre.clone();
+            s.push(k);
+            s.extend(post.iter().cloned());
+            if sn == "in-elem" {
+                vec![e("div", s)]
+            } else {
+                s
+            }
+        };
+        let a = mk(items(&[(0, "a"), (1, "b"), (2, "c")]));
+        let b = mk(items(&[(2, "c"), (0, "a"), (3, "d")]));
+        for p in perms {
+            let steps: Vec<Vec<usize>> = p.iter().map(|f| vec![*f]).collect();
+            for mode in ["io", "ooo", "res"] {
+                write_shyd(f, &format!("ss-suspk-{sn}-{}{}{}-{mode}", p[0], p[1], p[2]), mode, &[], &steps, &a, &b)?;
+            }
+        }
+        for mode in ["io", "ooo", "res"] {
+            write_shyd(f, &format!("ss-suspk-{sn}-all-{mode}"), mode, &[], &[vec![0, 1, 2]], &a, &b)?;
+            write_shyd(f, &format!("ss-suspk-{sn}-1ready-{mode}"), mode, &[1], &[vec![2], vec![0]], &a, &b)?;
+        }
+        write_shyd(f, &format!("ss-suspk-{sn}-sync"), "sync", &[0, 1, 2], &[], &a, &b)?;
+    }
+    // items of a Fragment (StaticVec) that suspend
+    for (bn, before) in &befores {
+        for (an, after) in &afters {
+            for (inn, ia, ib) in &inners {
+                for two in [false, true] {
+                    let mut items_a = vec![sx(0, ia.clone())];
+                    let mut items_b = vec![sx(0, ib.clone())];
+                    if two {
+                        items_a.push(sx(1, e("b", vec![t("2")])));
+                        items_b.push(t("two"));
+                    }
+                    for (mode, d0, steps) in [
+                        ("io", vec![], vec![vec![1], vec![0]]),
+                        ("ooo", vec![], vec![vec![1], vec![0]]),
+                        ("res", vec![], vec![vec![1], vec![0]]),
+                        ("ooo", vec![0], vec![]),
+                        ("sync", vec![0, 1], vec![]),
+                    ] {
+                        write_sfrag(
+                            f,
+                            &format!("ss-suspf-{bn}-{inn}{}-{an}-{mode}-{}", if two { "2" } else { "" }, d0.len()),
+                            mode,
+                            &d0,
+                            &steps,
+                            "div",
+                            before,
+                            &items_a,
+                            &items_b,
+                            after,
+                        )?;
+                    }
+                }
+            }
+        }
+    }
+    Ok(())
+}
+
+#[allow(clippy::too_many_arguments)]
+fn write_sfrag(
+    f: &mut impl std::io::Write,
+    name: &str,
+    mode: &str,
+    d0: &[usize],
+    steps: &[Vec<usize>],
+    tag: &str,
+    pre: &[V],
+    ia: &[V],
+    ib: &[V],
+    post: &[V],
+) -> std::io::Result<()> {
+    let kids: Vec<V> = pre.iter().chain(ia).chain(post).cloned().collect();
+    if !position_cases() && in_position_class(mode, d0, &[e(tag, kids)]) {
+        return Ok(());
+    }
+    if !name.is_empty() {
+        writeln!(f, "case {name}")?;
+    }
+    writeln!(f, "sfrag {mode} {} {} {tag} {} {} {} {}", fid_list(d0), steps_str(steps), enc_seq(pre), enc_seq(ia), enc_seq(ib), enc_seq(post))
+}
+
+/// wrap some nodes of `v` in a `Suspend` (not inside one, not inside a static subtree or a raw-text element)
+fn add_susp(r: &mut Rng, v: &V, next: &mut usize, p: usize) -> V {
+    let wrap_here = *next < 6 && r.chance(1, p);
+    let inner = |r: &mut Rng, next: &mut usize| -> V {
+        match v {
+            V::Elem { tag, attrs, kids } if tag != "textarea" && tag != "style" => {
+                V::Elem { tag: tag.clone(), attrs: attrs.clone(), kids: kids.iter().map(|k| add_susp(r, k, next, p)).collect() }
+            }
+            V::Tuple(ks) => V::Tuple(ks.iter().map(|k| add_susp(r, k, next, p)).collect()),
+            V::Vec(ks) => V::Vec(ks.iter().map(|k| add_susp(r, k, next, p)).collect()),
+            V::Array(ks) => V::Array(ks.iter().map(|k| add_susp(r, k, next, p)).collect()),
+            V::Some(x) => V::Some(Box::new(add_susp(r, x, next, p))),
+            V::Left(x) => V::Left(Box::new(add_susp(r, x, next, p))),
+            V::Right(x) => V::Right(Box::new(add_susp(r, x, next, p))),
+            V::Ok(x) => V::Ok(Box::new(add_susp(r, x, next, p))),
+            V::Of3(i, x) => V::Of3(*i, Box::new(add_susp(r, x, next, p))),
+            V::Owned(x) => V::Owned(Box::new(add_susp(r, x, next, p))),
+            V::Closure(x) => V::Closure(Box::new(add_susp(r, x, next, p))),
+            V::Keyed(ks) if *next + ks.len() <= 6 && r.chance(1, 2) => {
+                let items = ks.iter().map(|k| {
+                    *next += 1;
+                    (*next - 1, k.clone())
+                });
+                V::KeyedSusp(items.collect())
+            }
+            other => other.clone(),
+        }
+    };
+    if wrap_here {
+        let f = *next;
+        *next += 1;
+        V::Susp(f, Box::new(v.clone()))
+    } else {
+        inner(r, next)
+    }
+}
+
+fn de_arc(v: &V) -> V {
+    match v {
+        V::ArcStr(s) => V::Text(s.clone()),
+        V::Elem { tag, attrs, kids } => V::Elem { tag: tag.clone(), attrs: attrs.clone(), kids: kids.iter().map(de_arc).collect() },
+        V::Tuple(ks) => V::Tuple(ks.iter().map(de_arc).collect()),
+        V::Vec(ks) => V::Vec(ks.iter().map(de_arc).collect()),
+        V::Array(ks) => V::Array(ks.iter().map(de_arc).collect()),
+        V::Some(x) => V::Some(Box::new(de_arc(x))),
+        V::Left(x) => V::Left(Box::new(de_arc(x))),
+        V::Right(x) => V::Right(Box::new(de_arc(x))),
+        V::Ok(x) => V::Ok(Box::new(de_arc(x))),
+        V::Of3(i, x) => V::Of3(*i, Box::new(de_arc(x))),
+        V::Owned(x) => V::Owned(Box::new(de_arc(x))),
+        V::Closure(x) => V::Closure(Box::new(de_arc(x))),
+        V::Susp(f, x) => V::Susp(*f, Box::new(de_arc(x))),
+        other => other.clone(),
+    }
+}
+
+/// a random `shyd` case over the views `a`
+fn gen_shyd(r: &mut Rng, a: &[V], depth: usize, f: &mut impl std::io::Write) -> std::io::Result<bool> {
+    for _try in 0..6 {
+        let mut next = 0usize;
+        let a2: Vec<V> = a.iter().map(|v| add_susp(r, v, &mut next, 3)).collect();
+        if next == 0 {
+            continue;
+        }
+        let mut anc: Vec<&'static str> = vec![];
+        let b: Vec<V> = a2.iter().map(|v| mutate(r, v, depth, &mut anc)).collect();
+        if b.iter().any(|v| matches!(v, V::Susp(_, x) if has_susp(x))) {
+            continue;
+        }
+        let mode = *r.pick(&["io", "io", "ooo", "ooo", "res", "sync"]);
+        let fids: Vec<usize> = (0..next).collect();
+        let d0: Vec<usize> = if mode == "sync" { fids.clone() } else { fids.iter().copied().filter(|_| r.chance(1, 4)).collect() };
+        let in_class = in_position_class(mode, &d0, &a2);
+        // (an `InertElement` that meets a wrong node fails with a bare `unwrap()`, which reports nothing: not there)
+        if in_class && (!position_cases() || a2.iter().any(has_inert)) {
+            continue;
+        }
+        // in that class two string states may share one text node, which makes visible that `Arc<str>::rebuild`
+        // writes whenever the pointer differs (the model writes when the string differs): plain strings there
+        let (a2, b): (Vec<V>, Vec<V>) = if in_class { (a2.iter().map(de_arc).collect(), b.iter().map(de_arc).collect()) } else { (a2, b) };
+        // completion order: every pending future gets a poll number (or stays for the end)
+        let n_steps = r.range(0, 4);
+        let mut steps: Vec<Vec<usize>> = vec![vec![]; n_steps];
+        for k in fids.iter().filter(|k| !d0.contains(k)) {
+            if n_steps > 0 && r.chance(4, 5) {
+                let i = r.below(n_steps);
+                steps[i].push(*k);
+            }
+        }
+        // the order inside one step is free as well
+        for s in steps.iter_mut() {
+            if s.len() > 1 && r.chance(1, 2) {
+                s.reverse();
+            }
+        }
+        writeln!(f, "shyd {mode} {} {} {} {}", fid_list(&d0), steps_str(&steps), encode(&a2), encode(&b))?;
+        return Ok(true);
+    }
+    Ok(false)
 }
 
 fn gen(seed: u64, n: usize, path: &str) -> std::io::Result<()> {
@@ -1695,11 +2533,15 @@ fn gen(seed: u64, n: usize, path: &str) -> std::io::Result<()> {
     {
         writeln!(f, "case ss-frag{i}\nfrag div {} {} {} {}", enc_seq(&pre), enc_seq(&ia), enc_seq(&ib), enc_seq(&post))?;
     }
+    susp_scope(&mut f)?;
     for i in 0..n {
         writeln!(f, "case {i}")?;
         let mut anc: Vec<&'static str> = vec![];
         let depth = r.range(1, 4);
         let a = gen_seq(&mut r, depth, &mut anc, 1, 3);
+        if r.chance(1, 5) && gen_shyd(&mut r, &a, depth, &mut f)? {
+            continue;
+        }
         if r.chance(1, 14) {
             // an element whose children are pre.., Fragment(items), post..
             let tag = *r.pick(&["div", "span", "section", "my-box"]);
@@ -1709,6 +2551,28 @@ fn gen(seed: u64, n: usize, path: &str) -> std::io::Result<()> {
             let ia = gen_seq(&mut r, d2, &mut anc2, 0, 2);
             let ib = gen_seq(&mut r, d2, &mut anc2, 0, 2);
             let post = if r.chance(1, 2) { vec![] } else { gen_seq(&mut r, d2, &mut anc2, 1, 2) };
+            if r.chance(1, 3) && !ia.is_empty() {
+                // items that suspend
+                let mut next = 0usize;
+                let ia2: Vec<V> = ia.iter().map(|v| add_susp(&mut r, v, &mut next, 2)).collect();
+                let mode = *r.pick(&["io", "ooo", "res", "sync"]);
+                let fids: Vec<usize> = (0..next).collect();
+                let d0: Vec<usize> = if mode == "sync" { fids.clone() } else { fids.iter().copied().filter(|_| r.chance(1, 4)).collect() };
+                let mut steps: Vec<Vec<usize>> = vec![vec![]; r.range(0, 3)];
+                let n_steps = steps.len();
+                for k in fids.iter().filter(|k| !d0.contains(k)) {
+                    if n_steps > 0 && r.chance(4, 5) {
+                        let i = r.below(n_steps);
+                        steps[i].insert(0, *k);
+                    }
+                }
+                let kids: Vec<V> = pre.iter().chain(&ia2).chain(&post).cloned().collect();
+                let in_class = in_position_class(mode, &d0, &[e(tag, kids.clone())]);
+                if next > 0 && !(in_class && (!position_cases() || kids.iter().any(has_inert))) {
+                    write_sfrag(&mut f, "", mode, &d0, &steps, tag, &pre, &ia2, &ib, &post)?;
+                    continue;
+                }
+            }
             writeln!(f, "frag {tag} {} {} {} {}", enc_seq(&pre), enc_seq(&ia), enc_seq(&ib), enc_seq(&post))?;
             continue;
         }
@@ -1734,7 +2598,8 @@ fn main() {
         Cmd::Gen { seed, n, ops, .. } => gen(seed, n, &ops).unwrap(),
         Cmd::Run { ops, out } => {
             quiet_panics();
-            let _ = any_spawner::Executor::init_futures_executor();
+            // spawned tasks (a `Suspend` builds and rebuilds in one) go into the controlled executor of hx-common
+            sched::install();
             let mut tags = std::collections::HashMap::new();
             let text = std::fs::read_to_string(&ops).unwrap();
             let mut cur: Option<String> = Option::None;
